@@ -51,16 +51,34 @@ def _mk(prefix, read_only, transient):
     return S3TapeCassette('bkt', key_prefix=prefix, read_only=read_only, transient=transient)
 
 
+def _words():
+    """all prefix texts of length <= P over the tier's alphabet (a finite word list keeps the solver from enumerating
+    characters that the precondition would reject anyway)"""
+    out = ['']
+    layer = ['']
+    for _ in range(B('P')):
+        layer = [w + a for w in layer for a in B('ALPHA')]
+        out += layer
+    return out
+
+
 def confined(p1: str, p2: str, ro: bool, tr_: bool, calls: List[int], foreign: str, use_with: bool) -> bool:
     """
-    pre: len(p1) <= B('P') and len(p2) <= B('P') and len(foreign) <= B('F') and len(calls) <= B('C')
-    pre: all(ch in B('ALPHA') for ch in p1 + p2) and all(0 <= c <= 3 for c in calls)
+    pre: p1 in B('P1') and p2 in B('P2') and foreign in B('FOREIGN') and len(calls) <= B('C')
+    pre: all(0 <= c <= 3 for c in calls)
     post: _
     """
     # cassette 1 (prefix p1, symbolic flags) performs a call sequence in a bucket that also holds a foreign object and
     # recordings of cassette 2 (prefix p2); calls: 0 create+save, 1 get first own id, 2 list, 3 metadata of first own id
     ctx.begin()
     ro, tr_ = ctx.S('ro', ro), ctx.S('tr', tr_)
+    # texts become concrete by fork (one path per word): the bucket code does dozens of prefix tests per run
+    if ctx.S('p1') is not None:
+        if p1 != ctx.S('p1'):
+            return True
+        p1 = ctx.S('p1')
+    p1, p2, foreign = ctx.pick(p1, B('P1')), ctx.pick(p2, B('P2')), ctx.pick(foreign, B('FOREIGN'))
+    calls = [ctx.pick(c, range(4)) for c in calls]
     env = s3env.install()
     store = env.store
     fkey = ROOT + foreign
@@ -129,13 +147,16 @@ def confined(p1: str, p2: str, ro: bool, tr_: bool, calls: List[int], foreign: s
 
 def crash_during_save(p1: str, crash_at: int, n_saves: int, sizeclass: bool) -> bool:
     """
-    pre: len(p1) <= B('P') and all(ch in B('ALPHA') for ch in p1)
+    pre: p1 in B('P1')
     pre: 1 <= crash_at <= 2 * B('N') and 1 <= n_saves <= B('N')
     post: _
     """
     # the process dies right after the crash_at-th bucket mutation; afterwards every recording a fresh read-only
     # cassette can discover is completely fetchable and its stand-alone metadata agrees
     ctx.begin()
+    p1 = ctx.pick(p1, B('P1'))
+    crash_at = ctx.pick(crash_at, range(1, 2 * B('N') + 1))
+    n_saves = ctx.pick(n_saves, range(1, B('N') + 1))
     env = s3env.install()
     store = env.store
     cas = _mk(p1, False, False)
@@ -161,18 +182,19 @@ def crash_during_save(p1: str, crash_at: int, n_saves: int, sizeclass: bool) -> 
 
 
 _A = ['a', 'b', '/']
+_PW = ['', 'a', 'b', 'ab', 'a/', 'a/b', 'aa', 'metadata', 'a/full']
 CONDITIONS = [
     {'fn': 'confined', 'nontrivial': 'transient-cleanup',
      'what': 'two cassettes with symbolic prefixes in one bucket with foreign objects: read-only never mutates; writes '
              'and deletes stay in the own area; transient close removes exactly the own recordings',
-     'tiers': {'quick': {'bounds': {'P': 2, 'F': 2, 'C': 2, 'ALPHA': ['a', 'b']}, 'timeout': 500,
-                         'shards': [{'ro': r, 'tr': t} for r in (False, True) for t in (False, True)],
-                         'witness_shard': {'ro': False, 'tr': True}},
-               'thorough': {'bounds': {'P': 3, 'F': 3, 'C': 3, 'ALPHA': _A}, 'timeout': 6000,
-                            'shards': [{'ro': r, 'tr': t} for r in (False, True) for t in (False, True)],
-                            'witness_shard': {'ro': False, 'tr': True}}}},
+     'tiers': {'quick': {'bounds': {'P1': ['', 'a', 'ab'], 'P2': ['', 'a', 'ab'], 'C': 2, 'FOREIGN': ['a/full/x', 'full/z']}, 'timeout': 600,
+                         'shards': [{'ro': r, 'tr': t, 'p1': w} for r in (False, True) for t in (False, True) for w in ('', 'a', 'ab')],
+                         'witness_shard': {'ro': False, 'tr': True, 'p1': 'a'}},
+               'thorough': {'bounds': {'P1': _PW, 'P2': _PW, 'C': 3, 'FOREIGN': ['', 'a', 'a/full/x', 'ab/metadata/y', 'full/z', 'a/', 'a//full/q', 'metadata/']}, 'timeout': 8000,
+                            'shards': [{'ro': r, 'tr': t, 'p1': w} for r in (False, True) for t in (False, True) for w in _PW],
+                            'witness_shard': {'ro': False, 'tr': True, 'p1': 'a'}}}},
     {'fn': 'crash_during_save', 'nontrivial': 'crashed-mid-save',
      'what': 'crash after each individual bucket mutation of every save: discoverable => completely fetchable',
-     'tiers': {'quick': {'bounds': {'P': 1, 'N': 2, 'ALPHA': ['a']}, 'timeout': 300, 'shards': [{}]},
-               'thorough': {'bounds': {'P': 2, 'N': 3, 'ALPHA': _A}, 'timeout': 3000, 'shards': [{}]}}},
+     'tiers': {'quick': {'bounds': {'P1': ['', 'a'], 'N': 2}, 'timeout': 300, 'shards': [{}]},
+               'thorough': {'bounds': {'P1': _PW, 'N': 3}, 'timeout': 3000, 'shards': [{}]}}},
 ]
